@@ -532,6 +532,17 @@ Step ==
                /\ viol' = viol \o tv \o (IF diffs = <<>> THEN <<>> ELSE <<V("NONCONF", "constructor_state_differs", "", [after |-> e.a, fields |-> diffs, exp |-> x, act |-> y])>>)
                     \o (IF y.count < 0 \/ y.count > 1000000 THEN <<V("C04", "client_count_underflow", "", y.count)>> ELSE <<>>)
                     \o (IF y.conn > 1 THEN <<V("C06", "second_connection_event", "", y.conn)>> ELSE <<>>)
+       [] e.e = "upgr.expect" ->
+            \* conformance of the real session to Upgrade.tla: flags, transport, number of switches, and for every candidate dialled
+            \* so far whether its connection has been closed
+            LET x == e.exp  y == e.act
+                cs == DOMAIN y.closed \cap DOMAIN x.closed
+                diffs == (IF x.upgrading # y.upgrading THEN <<"upgrading">> ELSE <<>>) \o (IF x.upgraded # y.upgraded THEN <<"upgraded">> ELSE <<>>)
+                      \o (IF x.tr # y.tr THEN <<"tr">> ELSE <<>>) \o (IF x.nswitch # y.nswitch THEN <<"nswitch">> ELSE <<>>)
+                      \o (IF \E c \in cs : x.closed[c] # y.closed[c] THEN <<"closed">> ELSE <<>>)
+            IN /\ S' = SS /\ UNCHANGED <<cfg, Rq, Cn>>
+               /\ viol' = viol \o tv \o (IF diffs = <<>> THEN <<>> ELSE <<V("NONCONF", "upgrade_state_differs", e.sid, [after |-> e.a, cand |-> e.c, fields |-> diffs, exp |-> x, act |-> y])>>)
+                    \o (IF y.nswitch > 1 THEN <<V("C08", "upgraded_more_than_once", e.sid, y.nswitch)>> ELSE <<>>)
        [] e.e = "tickwin" ->
             \* the tick of the refreshed timer was held before the timer's mutex when the heartbeat packet was accepted: it is stale
             /\ S' = SS
